@@ -162,6 +162,24 @@ def write (d : DD β) (off len : Nat) (buf : Nat → β) : DD β :=
     let d2 := d1.fullWrite ((off + startCut) / d.bs) ((len - startCut - endOffset) / d.bs) buf
     d2.rmw (off + len - endOffset) endOffset buf
 
+/-! ### the controller's widening of sub-block writes while a WO replica is attached
+(`Controller.widenForWONoLock`): the request is extended to block boundaries, the surrounding units
+being read from an RW replica first. -/
+
+def wStart (bs off : Nat) : Nat := off - off % bs
+def wEnd (bs off len : Nat) : Nat :=
+  if (off + len) % bs = 0 then off + len else off + len + (bs - (off + len) % bs)
+
+/-- the widened buffer: the caller's units, around them what the volume holds (`src` is the value an
+    RW replica returns for the unit) -/
+def widenBuf (src : Nat → β) (off len : Nat) (buf : Nat → β) : Nat → β :=
+  fun u => if off ≤ u ∧ u < off + len then buf u else src u
+
+/-- what a replica receives for the request `(off, len, buf)` while a WO replica is attached -/
+def widenWrite (d : DD β) (src : Nat → β) (off len : Nat) (buf : Nat → β) : DD β :=
+  if len = 0 then d
+  else d.write (wStart d.bs off) (wEnd d.bs off len - wStart d.bs off) (widenBuf src off len buf)
+
 /-! ### chain operations -/
 
 /-- `createDisk`: the head becomes a snapshot, a new empty head is appended. -/
@@ -242,6 +260,18 @@ def preloadHoles (d : DD β) : Nat → List (Nat × Nat)
 def preload (d : DD β) : DD β :=
   { d with loc  := fun b => if b < d.nb then (preloadBlock d b d.top).1 else 0
            pend := d.pend ++ preloadHoles d d.nb }
+
+/-- `Server.UpdateLUNMap` (no I/O between its preload pass and the merge): the extents are scanned
+    into a private map, unknown entries of the live map are filled from it, and where the live map
+    already points above the scanned owner the scanned owner's copy is queued for punching. -/
+def lunmap (d : DD β) : DD β :=
+  -- `preloadBlock` / `preloadHoles` read only the files, the markers and the punch switch, i.e. they
+  -- describe the scan into the private (initially empty) map
+  let locP := fun b => if b < d.nb then (preloadBlock d b d.top).1 else 0
+  let merge := (List.range d.nb).filterMap fun b =>
+    if locP b ≠ 0 ∧ locP b < d.loc b ∧ lastMark d.marks d.top < locP b ∧ d.punch then some (locP b, b) else none
+  { d with loc  := fun b => if d.loc b ≠ 0 then d.loc b else locP b
+           pend := d.pend ++ preloadHoles d d.nb ++ merge }
 
 /-- `construct` on an existing directory (Close+Open, Reload, and the tail of Revert). -/
 def reopen (d : DD β) (pre : Bool) : DD β :=
